@@ -41,16 +41,17 @@ type edit struct {
 }
 
 type rewriter struct {
-	fset   *token.FileSet
-	src    []byte
-	base   int
-	opt    Options
-	errs   []string
-	tmpSeq int
-	guards []Guard
-	recv   string            // receiver name of the enclosing method, "" otherwise
-	inList map[ast.Stmt]bool // statements that are direct members of a statement list
-	stats  map[string]int
+	fset    *token.FileSet
+	src     []byte
+	base    int
+	opt     Options
+	errs    []string
+	tmpSeq  int
+	guards  []Guard
+	recv    string            // receiver name of the enclosing method, "" otherwise
+	inConst bool              // inside a constant context (len/cap must stay built-in)
+	inList  map[ast.Stmt]bool // statements that are direct members of a statement list
+	stats   map[string]int
 }
 
 func (r *rewriter) off(p token.Pos) int { return r.fset.Position(p).Offset }
@@ -103,6 +104,16 @@ func (r *rewriter) renderRange(n ast.Node, from, to int) string {
 			if a := r.assertFor(st); a != "" {
 				edits = append(edits, edit{pos: r.off(st.Pos()), end: r.off(st.Pos()), text: a, ins: true})
 			}
+		}
+		if gd, ok := c.(*ast.GenDecl); ok && gd.Tok == token.CONST {
+			return false // constants are left alone
+		}
+		if at, ok := c.(*ast.ArrayType); ok && at.Len != nil {
+			// array lengths are constant expressions: leave them alone
+			if txt, ok := r.replace(at.Elt, false); ok {
+				edits = append(edits, edit{pos: r.off(at.Elt.Pos()), end: r.off(at.Elt.End()), text: txt})
+			}
+			return false
 		}
 		if fd, ok := c.(*ast.FuncDecl); ok {
 			r.recv = ""
@@ -313,6 +324,13 @@ func (r *rewriter) replace(c ast.Node, isRoot bool) (string, bool) {
 		if id, ok := x.Fun.(*ast.Ident); ok && id.Name == "close" && len(x.Args) == 1 {
 			r.stats["close"]++
 			return fmt.Sprintf("vsched.Close(%s)", r.render(x.Args[0])), true
+		}
+		// len/cap of a channel must ask the shim (values never travel through
+		// the real channel); the argument's type is not known syntactically, so
+		// every len/cap goes through a helper that falls back to the built-in
+		if id, ok := x.Fun.(*ast.Ident); ok && (id.Name == "len" || id.Name == "cap") && len(x.Args) == 1 && !r.inConst {
+			r.stats[id.Name]++
+			return fmt.Sprintf("vsched.%s(%s)", map[string]string{"len": "Len", "cap": "Cap"}[id.Name], r.render(x.Args[0])), true
 		}
 		if sel, ok := x.Fun.(*ast.SelectorExpr); ok {
 			recvTxt := r.orig(sel.X)
